@@ -118,6 +118,11 @@ def seq_split(p):
     return z3.Implies(z3.Length(p) > 0, p == cons(head(p), tail(p)))
 
 
+def _one_loop(pc, what):
+    if pc["n_loops"] != 1:
+        raise EngineLimit("%s has %d top-level for-loops; the loop invariant is written for ONE loop over all entries (restructured function: undecided here, see the bounded whole-function check)" % (what, pc["n_loops"]))
+
+
 def _need(locs, *names):
     for n in names:
         if n not in locs:
@@ -131,6 +136,7 @@ def _need(locs, *names):
 class _FilterBase(Contract):
     def setup(self):
         self.pc = loops.pieces(self.fn, 0)
+        _one_loop(self.pc, "Fn.filter")
         _need(self.pc["locals"], "self", "x", "selection")
         self.P0 = fresh("P0", PathSort)
         self.sel_inner = AbsSel.fresh("S")
@@ -411,6 +417,7 @@ class FnMergeLoop(Contract):
         piece, chk = case[:-1].split("[")
         eng = engine()
         self.pc = loops.pieces(self.fn, 0)
+        _one_loop(self.pc, "Fn.merge")
         names = self.pc["locals"]
         _need(names, "self", "x", "x_", "check", "result", "discarded")
         self.P0 = P0 = fresh("P0", PathSort)
@@ -499,8 +506,14 @@ class FnMergeLoop(Contract):
             if kind == "fallthrough":
                 yield "result_starts_empty", payload["result"] == {} and type(payload["result"]) is dict
                 yield "discarded_starts_empty", payload["discarded"] == {} and type(payload["discarded"]) is dict
-                yield "all_keys_is_union(concrete token sets)", set(payload["all_keys"]) == {"k1", "k2", "k3"}
-                yield "iterates_all_keys", self.pc["iter_src"] == "all_keys"
+                # semantic: the loop header's iterable, evaluated in the locals the prefix leaves, visits every key
+                # of either map exactly once (no coupling to how the code names or builds that collection)
+                try:
+                    _k, it = self.pc["iter"](**payload)
+                    visited = list(it)
+                except Exception as e:  # the iterable needs something the token maps do not have
+                    raise EngineLimit("loop iterable %r not evaluable on token maps: %r" % (self.pc["iter_src"], e))
+                yield "loop_visits_every_key_of_either_map_exactly_once", sorted(visited) == ["k1", "k2", "k3"]
             return
         P0 = self.P0
         if piece == "suffix":
@@ -664,3 +677,192 @@ from vt.contract import canary as _canary  # noqa: E402
 
 _canary(FnFilterLoop, "body[leaf]", "invariant_preserved/selected_leaves")
 _canary(FnMergeLoop, "body:leaf/leaf[no_check]", "invariant_preserved/result_values")
+
+
+# ================================================================================================
+# Whole-function stand-ins (BOUNDED): the loop-invariant proofs above are tied to the shape of one `for` loop; a
+# restructured Fn.merge / Fn.filter (two loops, helper functions, comprehension) makes them *undecided*.  These
+# run the WHOLE real function — real recursion, no extraction — on every pair of concrete map shapes from a small
+# grammar with symbolic leaf values (and an abstract selection / symbolic check), against the same leaf-level
+# specification.  Bounded in width (keys a, b) and depth (<= 4 through single-key chains); listed under `bounded`,
+# never counted as proved.  A refutation is a concrete shape on which the real function disagrees with the spec.
+
+
+def _shapes(depth, keys=("a", "b")):
+    """all map shapes of nesting depth <= depth over the given keys; leaves are the token 'L'"""
+    if depth == 0:
+        return ["L"]
+    sub = _shapes(depth - 1, keys)
+    out = ["L"]
+    import itertools
+
+    for present in itertools.product([False, True], repeat=len(keys)):
+        ks = [k for k, p in zip(keys, present) if p]
+        for combo in itertools.product(sub, repeat=len(ks)):
+            out.append(dict(zip(ks, combo)))
+    return out
+
+
+def _instantiate(shape, prefix, leaves):
+    """fresh symbolic leaf per 'L'; records path -> value term"""
+    if shape == "L":
+        v = value("leaf_" + "_".join(prefix) if prefix else "leaf")
+        leaves[tuple(prefix)] = v
+        return v
+    return {k: _instantiate(s, prefix + [k], leaves) for k, s in shape.items()}
+
+
+def _compat(a, b):
+    if a == "L" or b == "L":
+        return a == "L" and b == "L"
+    return all(_compat(a[k], b[k]) for k in a if k in b)
+
+
+def _leaves_of(obj, prefix=()):
+    """concrete result -> {path: value}; None / {} have no leaves"""
+    if obj is None:
+        return {}
+    if isinstance(obj, dict):
+        out = {}
+        for k, v in obj.items():
+            out.update(_leaves_of(v, prefix + (k,)))
+        return out
+    return {prefix: obj}
+
+
+def _chain(shape, n):
+    for _ in range(n):
+        shape = {"k": shape}
+    return shape
+
+
+def _merge_pairs():
+    base = [s for s in _shapes(2) if s != "L"]
+    pairs = [(a, b) for a in base for b in base if _compat(a, b)]
+    # deeper: the same pairs under one and two shared single-key chains (an interior node whose children agree
+    # while the leaves below differ), and under a chain on one side only next to a sibling
+    small = [s for s in _shapes(1) if s != "L"]
+    deep = [(_chain(a, n), _chain(b, n)) for n in (1, 2) for a in small for b in small if _compat(a, b)]
+    return pairs + deep
+
+
+@contract("genjax.core:Fn.merge", ["C16", "C17", "C03", "C01", "C05", "C09"], kind="bounded")
+class FnMergeWhole(Contract):
+    """BOUNDED whole-function check of Fn.merge (real recursion): every compatible pair of map shapes over keys
+    {a, b} up to depth 2, and the one-key shapes under shared chains up to depth 4, with symbolic leaves"""
+
+    cases = ["no_check", "check"]
+
+    def call(self, case):
+        self.check = boolean("check") if case == "check" else None
+        f = core.Fn(core.Const(lambda: None))
+        self.bad, self.n = [], 0
+        for sa, sb in _merge_pairs():
+            la, lb = {}, {}
+            x, y = _instantiate(sa, ["x"], la), _instantiate(sb, ["y"], lb)
+            la = {p[1:]: v for p, v in la.items()}
+            lb = {p[1:]: v for p, v in lb.items()}
+            m, d = self.real(self.fn, f, x, y, self.check)
+            self.n += 1
+            got_m, got_d = _leaves_of(m), _leaves_of(d)
+            want_m, want_d = {}, {}
+            for p in set(la) | set(lb):
+                if p in la and p in lb:
+                    if self.check is None:
+                        want_m[p] = lb[p].e
+                        want_d[p] = la[p].e
+                    else:
+                        want_m[p] = z3.If(self.check.e, la[p].e, lb[p].e)
+                else:
+                    want_m[p] = (la[p] if p in la else lb[p]).e
+            ok = set(got_m) == set(want_m) and set(got_d) == set(want_d)
+            if ok:
+                for p in want_m:
+                    g = got_m[p]
+                    ok = ok and isinstance(g, Sym) and z3.eq(z3.simplify(g.e), z3.simplify(want_m[p]))
+                for p in want_d:
+                    g = got_d[p]
+                    ok = ok and isinstance(g, Sym) and z3.eq(z3.simplify(g.e), z3.simplify(want_d[p]))
+                ok = ok and (d is None) == (not want_d)
+            if not ok:
+                self.bad.append((sa, sb, {"/".join(p): str(v) for p, v in got_m.items()}, {"/".join(p): str(v) for p, v in got_d.items()}))
+        return self.n
+
+    def ensures(self, case, path):
+        yield "does_not_raise", path.outcome == "return"
+        if path.outcome != "return":
+            return
+        yield "shape_pairs_generated", self.n > 300
+        self.witness = self.bad[:3]
+        yield "merged_and_discard_agree_with_the_leaf_level_spec_on_every_shape_pair", not self.bad
+
+    def replay(self, case, clause, model, path):
+        from .native import run_native
+
+        r = dict(run_native("merge_vs_spec"))
+        r["bounded_witness(x_shape, x'_shape, merged leaves, discarded leaves)"] = [repr(b)[:600] for b in getattr(self, "witness", [])]
+        return r
+
+
+@contract("genjax.core:Fn.filter", ["C16", "C09"], kind="bounded")
+class FnFilterWhole(Contract):
+    """BOUNDED whole-function check of Fn.filter (real recursion, abstract selection): twelve map shapes over keys
+    {a, b, k} up to depth 3 (incl. empty maps and empty sub-maps); the first part holds exactly the leaves p with
+    Sel(s, p), the second the others"""
+
+    cases = ["depth<=3"]
+    max_paths = 20000
+    tiers = ("thorough",)  # ~600 paths: too slow for the every-change tier
+
+    def call(self, case):
+        f = core.Fn(core.Const(lambda: None))
+        L = "L"
+        shapes = [
+            {}, {"a": L}, {"a": L, "b": L}, {"a": {"a": L}}, {"a": {"a": L, "b": L}}, {"a": {"a": L}, "b": L}, {"a": {}},
+            {"a": {"a": L}, "b": {"b": L}}, {"a": {"a": L, "b": L}, "b": {"a": L}}, {"k": {"a": {"a": L, "b": L}}},
+            {"k": {"a": {"b": L}, "b": L}}, {"a": {}, "b": L},
+        ]
+        eng = engine()
+        # one shape per path: the engine's decision mechanism enumerates them
+        idx = 0
+        for i in range(4):
+            if eng.decide(fresh("shape_bit%d" % i, z3.BoolSort())):
+                idx |= 1 << i
+        if idx >= len(shapes):
+            idx = idx % len(shapes)
+        self.shape = shapes[idx]
+        leaves = {}
+        x = _instantiate(self.shape, ["x"], leaves)
+        self.leaves = {p[1:]: v for p, v in leaves.items()}
+        self.sel = core.Selection(AbsSel.fresh("S"))
+        return self.real(self.fn, f, x, self.sel)
+
+    def ensures(self, case, path):
+        yield "does_not_raise", path.outcome == "return"
+        if path.outcome != "return":
+            return
+        xp, xm = path.value
+        gp, gm = _leaves_of(xp), _leaves_of(xm)
+        from vt.sym import atom as _atom
+
+        def pth(p):
+            t = EPS
+            for k in reversed(p):
+                t = cons(_atom(k), t)
+            return t
+
+        fs = []
+        for p, v in self.leaves.items():
+            s = den(self.sel, pth(p))
+            inp = z3.BoolVal(p in gp and isinstance(gp[p], Sym) and z3.eq(gp[p].e, v.e))
+            inm = z3.BoolVal(p in gm and isinstance(gm[p], Sym) and z3.eq(gm[p].e, v.e))
+            fs.append(z3.And(inp == s, inm == z3.Not(s)))
+        extra = set(gp) - set(self.leaves) | set(gm) - set(self.leaves)
+        yield "parts_hold_exactly_the_selected_/_unselected_leaves_with_their_values", z3.And(z3.BoolVal(not extra), *fs)
+
+    def replay(self, case, clause, model, path):
+        from .native import run_native
+
+        r = dict(run_native("filter_vs_spec"))
+        r["bounded_witness_shape"] = repr(getattr(self, "shape", None))
+        return r
